@@ -775,8 +775,9 @@ _add_rt2("C08", "AUDIT ROUND 2: the counter of gather_futures AS SHIPPED (fix 60
          "above. (2) The gather_nonatomic_* / gather_terminates_nonatomic_refuted(_every_n) theorems are about the PRE-FIX counter and are counted as obligations "
          "although they document a repaired defect. (3) Every executor-level theorem treats a completion and its callbacks as ONE step: justified for "
          "gather's counter by the lock (theorem above), an assumption for the other callback bodies beyond one worker; the locked-counter theorem is not "
-         "lifted into the executor tree. (4) always_terminates is deadlock-freedom; no theorem bounds the number of tasks an operation submits (the harness "
-         "runs every schedule to the end; `pending` is a failing case there).")
+         "lifted into the executor tree. (4) CLOSED: always_terminates alone is deadlock-freedom; terminates_within_bound (Props/C08_progress.lean over "
+         "Lemmas/ExecBound.lean) adds the bound - `weight op` = one per deferred resolver, two per nested one; EVERY schedule with at least that many "
+         "entries ends with a response or a failure, never `pending` (potential queue length + tasks still to be submitted never increases under deliver).")
 _add_rt2("C16", "AUDIT ROUND 2: deferred_field_middlewares_exit_at_submission (the exact deferred form: resolve_field emits field+, every middleware entry, every middleware exit and nothing else; call / ret / field- come with the task), field_events_inside_execution (for every request that reaches the executor the trace is stage events ++ [execution+] ++ "
                 "executor run ++ [execution-] ++ [query-], the executor run has no stage event: every field / middleware / resolver event lies inside the "
                 "execution stage, every executor, runtime and schedule of the model); named probe middleware-deferred.",
